@@ -838,6 +838,7 @@ impl BackupManager {
         let manifest_layout = read_manifest_layout(&manifest_path)?;
         let mut entries = Vec::new();
         let mut max_wal_file_id: Option<u64> = None;
+        let mut snapshot_file: Option<String> = None;
 
         let all_wal_segments = list_wal_segments_in_dir(&self.data_dir)?;
         let modified_since_parent = |path: &Path| -> bool {
@@ -891,6 +892,22 @@ impl BackupManager {
                     a_id.cmp(&b_id).then_with(|| a.cmp(b))
                 });
                 manifest.wal_segments.dedup();
+                // The restored MANIFEST names this snapshot, and the WAL it lists may start behind it
+                // (compaction): ship the snapshot unless an archive of the parent chain already holds it.
+                if let Some(snapshot_name) = &manifest.latest_snapshot {
+                    let in_chain = self.newest_snapshot_in_chain(&parent_metadata)?;
+                    if in_chain.as_deref() != Some(snapshot_name.as_str()) {
+                        let snapshot_path = self.data_dir.join(snapshot_name);
+                        anyhow::ensure!(
+                            snapshot_path.exists(),
+                            "MANIFEST references missing snapshot '{}' in {}",
+                            snapshot_name,
+                            self.data_dir.display()
+                        );
+                        entries.push(ArchiveEntry::from_path(snapshot_name.clone(), snapshot_path));
+                        snapshot_file = Some(snapshot_name.clone());
+                    }
+                }
                 let manifest_bytes =
                     serde_json::to_vec_pretty(&manifest).context("Failed to serialize MANIFEST")?;
                 entries.push(ArchiveEntry::from_bytes("MANIFEST", manifest_bytes));
@@ -957,7 +974,7 @@ impl BackupManager {
             parent_id: Some(parent_id),
             description,
             max_wal_file_id,
-            snapshot_file: None,
+            snapshot_file,
         };
 
         // Save metadata
@@ -971,6 +988,25 @@ impl BackupManager {
         );
 
         Ok(metadata)
+    }
+
+    /// The snapshot file shipped most recently along the chain that ends in `backup`
+    /// (`snapshot_file` is set exactly when an archive contains a snapshot).
+    fn newest_snapshot_in_chain(&self, backup: &BackupMetadata) -> Result<Option<String>> {
+        let mut current = backup.clone();
+        loop {
+            if current.snapshot_file.is_some() {
+                return Ok(current.snapshot_file);
+            }
+            let Some(parent_id) = current.parent_id else {
+                return Ok(None);
+            };
+            let parent_path = self.backup_dir.join(format!("backup_{}.json", parent_id));
+            if !parent_path.exists() {
+                return Ok(None);
+            }
+            current = serde_json::from_str(&fs::read_to_string(parent_path)?)?;
+        }
     }
 
     /// List all backups sorted by timestamp (newest first)
